@@ -47,6 +47,8 @@ func cmdVerify(args []string) {
 	dump := fs.String("dump", "", "directory to dump SMT scripts of failed obligations")
 	specDir := fs.String("spec", "/verif/spec", "directory with *.spec files")
 	showAll := fs.Bool("v", false, "print every obligation")
+	iface := fs.String("iface", "", "verify all implementers against this interface-level contract key (iface:pkg.I.M)")
+	only := fs.String("only", "", "with -iface: restrict to functions whose key contains this string")
 	fs.Parse(args)
 	t0 := time.Now()
 	eng, err := loadEngine(*repo, strings.Split(*pkgs, ","), []string{*specDir})
@@ -67,6 +69,31 @@ func cmdVerify(args []string) {
 		sort.Strings(keys)
 	}
 	var all []*Obligation
+	if *iface != "" {
+		ifc := eng.contracts[*iface]
+		if ifc == nil {
+			fmt.Println("no such interface contract", *iface)
+			os.Exit(2)
+		}
+		nOut := 0
+		for _, fn := range eng.ifaceTargets(*iface) {
+			if *only != "" && !strings.Contains(funcKey(fn), *only) {
+				continue
+			}
+			vc := eng.verifyAgainstIface(fn, ifc, eng.contracts[funcKey(fn)])
+			if vc.outside != "" {
+				nOut++
+				fmt.Printf("!! %s outside subset: %s\n", funcKey(fn), vc.outside)
+				continue
+			}
+			for _, w := range vc.warnings {
+				fmt.Printf("   warning %s: %s\n", funcKey(fn), w)
+			}
+			all = append(all, vc.obls...)
+		}
+		fmt.Printf("%d targets outside subset\n", nOut)
+		keys = nil
+	}
 	for _, k := range keys {
 		fn := eng.lookupFunc(k)
 		if fn == nil {
